@@ -202,6 +202,40 @@ def r4_absent_params(ctx):
 
 
 
+def rws_separator_sees_no_whitespace(ctx, rule="C16.WS"):
+    """next_inner decides `[` / `,` / `]` from the *first byte* of the stored remainder, so the remainder must never start
+    with whitespace: every store of a non-constant remainder into self.0 is the result of trim_start (or the first-byte
+    test itself is preceded by a trim_start on every path). Otherwise `[1 ,2]` or `[1 ]` - which a plain JSON parse
+    accepts - is reported as invalid params"""
+    F, R = ctx.F, ctx.R
+    tr = ctx.tracer(follow_callers=False, follow_fields=False, inline_calls=False)
+    b = F.one(r"^jsonrpsee_types::params::ParamsSequence::<'a>::next_inner$")
+    R.fn(b)
+    firsts = b.calls_to(r"slice::<impl \[T\]>::first$|str::<impl str>::(chars|bytes|starts_with|strip_prefix)$")
+    if not firsts:
+        raise AnchorLost("the first-byte test of next_inner")
+    trims = b.calls_to(r"str::<impl str>::trim_start$|str::<impl str>::trim$")
+    pre = any(flow.all_paths_pass(b, 0, {t.bb}, {f.bb}) for t in trims for f in firsts) if trims else False
+    stores = []
+    for bi, blk in enumerate(b.blocks):
+        if blk.get("cleanup") or bi not in b.reachable:
+            continue
+        for st in blk["st"]:
+            if st["s"] == "assign" and st["pl"]["l"] == 1 and [e for e in st["pl"].get("p", []) if isinstance(e, dict) and "f" in e]:
+                stores.append((bi, st))
+    n = 0
+    for bi, st in stores:
+        if st["rv"]["k"] != "use":
+            continue
+        lv = tr.origins(b, st["rv"]["op"])
+        if lv and all(l.kind == "const" for l in lv):
+            continue   # poisoning with ""
+        n += 1
+        trimmed = any(l.kind == "call" and re.search(r"str::<impl str>::trim(_start)?$", l.detail["callee"] or "") for l in lv)
+        R.check(trimmed or pre, rule, "next_inner:remainder-trimmed", "the remainder stored after an element starts at the next token", "next_inner stores the remainder after an element without skipping whitespace (%s) although the next call looks at its first byte: `[1 ,2]` / `[1 ]` are then rejected as invalid params while a plain JSON parse accepts them" % [flow.leaf_str(l)[:60] for l in lv], "%s:%d" % (b.file, st["sp"][0]))
+    R.floor(rule, n, 1, "stores of the remaining text in next_inner")
+
+
 def rown_into_owned(ctx):
     """Params::into_owned (what async handlers receive) is the same text as the borrowed params"""
     from .common import into_owned_fieldwise
@@ -217,7 +251,7 @@ def rnext_reads_T(ctx):
     R.check(len(ni) == 1 and ni[0].ga and ni[0].ga[-1] == "T", "C16.NEXT", "next:reads-T", "next::<T> reads the element as T", "ParamsSequence::next::<T> does not read the element as T via next_inner::<T> (%s): a JSON null read with next() is reported as 'no more params' although a plain parse of the element succeeds" % ([c.ga for c in ni] or sorted({short(c.name()) for c in b.calls})[:4]), "%s:%d" % (b.file, b.lo))
 
 
-RULES = [r1_only_invalid_params, r2_poison_on_error, r3_exhaustion_table, r4_absent_params, rown_into_owned, rnext_reads_T]
+RULES = [r1_only_invalid_params, r2_poison_on_error, r3_exhaustion_table, r4_absent_params, rown_into_owned, rnext_reads_T, rws_separator_sees_no_whitespace]
 
 LEVEL_TEXT = (
     "Only the error-discipline slice of the property is claimed: the single error constructor (hence the single code "
